@@ -142,3 +142,41 @@ func (t *fltTr) emitHelpers(repo string) (string, error) {
 	sb.WriteString("\n")
 	return sb.String(), nil
 }
+
+// cmpClosures: the bodies of the eight comparison constructors of filters.go (closure text, whitespace-normalised), and of
+// the helpers they share. RG.Filters.LoaderState.doc_cmp_closures is the audited copy from which FilterAlgebra.eval's
+// comparison cases are transcribed.
+func (t *fltTr) cmpClosures(repo string) (string, error) {
+	ff, err := flt_parseFile(t.fset, repo+"/ruleguard/filters.go")
+	if err != nil {
+		return "", err
+	}
+	uf, err := flt_parseFile(t.fset, repo+"/ruleguard/utils.go")
+	if err != nil {
+		return "", err
+	}
+	var sb strings.Builder
+	sb.WriteString("(* filters.go: the comparison constructors; utils.go: the helpers they call *)\nDefinition gen_cmp_closures : list (string * string) := [\n")
+	names := []string{"makeLineConstFilter", "makeLineFilter", "makeTypeSizeConstFilter", "makeTypeSizeFilter", "makeValueIntConstFilter", "makeValueIntFilter",
+		"makeTextConstFilter", "makeTextFilter", "exprListFilterApply"}
+	for _, n := range names {
+		fd := flt_findFunc(ff, n)
+		if fd == nil {
+			return "", fmt.Errorf("%s not found", n)
+		}
+		fmt.Fprintf(&sb, "  (%s, %s);\n", flt_coqStr(n), flt_coqStr(t.text(fd.Type)+" :: "+t.stmtsText(fd.Body.List)))
+	}
+	for i, n := range []string{"intValueOf", "hasKnownSize", "isTypeParam", "isAbsentNode"} {
+		fd := flt_findFunc(uf, n)
+		if fd == nil {
+			return "", fmt.Errorf("%s not found", n)
+		}
+		sep := ";"
+		if i == 3 {
+			sep = ""
+		}
+		fmt.Fprintf(&sb, "  (%s, %s)%s\n", flt_coqStr(n), flt_coqStr(t.text(fd.Type)+" :: "+t.stmtsText(fd.Body.List)), sep)
+	}
+	sb.WriteString("].\n\n")
+	return sb.String(), nil
+}
